@@ -170,6 +170,10 @@ static void apply(const op_t * o) {
         case 'C': SCPI_ErrorClear(&ctx); break;
         case 'L': SCPI_Input(&ctx, "*CLS\n", 5); break;
         case 'N': res_cnt = SCPI_ErrorCount(&ctx); break;
+        case 'B':       /* the application rewrites the status byte without the error-available bit, then counts: the queue is not the status byte */
+            SCPI_RegClearBits(&ctx, SCPI_REG_STB, 4);
+            res_cnt = SCPI_ErrorCount(&ctx);
+            break;
     }
 }
 
@@ -180,7 +184,7 @@ static void print_op(FILE * f, const op_t * o) {
         case 'S': fprintf(f, "[\"syst\"]"); break;
         case 'C': fprintf(f, "[\"clear\"]"); break;
         case 'L': fprintf(f, "[\"cls\"]"); break;
-        case 'N': fprintf(f, "[\"count\"]"); break;
+        case 'N': case 'B': fprintf(f, "[\"count\"]"); break;
     }
 }
 
@@ -331,7 +335,7 @@ static int walk(unsigned long seedv, long steps, const char * outpath) {
         else if (r < 88) o.kind = 'S';
         else if (r < 91) o.kind = 'C';
         else if (r < 93) o.kind = 'L';
-        else o.kind = 'N';
+        else o.kind = (rnd() % 2) ? 'N' : 'B';
         apply(&o);
         record(f, from, &o);
     }
